@@ -481,10 +481,19 @@ func otherSet(keys []K, ids []int) *starlark.Set {
 	}
 	return s
 }
+// otherList is the operand as a list with repeats: the first element twice in
+// a row and once more at the end (a set operand cannot repeat; an iterable can,
+// and only first occurrences count).
 func otherList(keys []K, ids []int) *starlark.List {
 	var e []starlark.Value
-	for _, id := range ids {
+	for i, id := range ids {
 		e = append(e, keys[id])
+		if i == 0 {
+			e = append(e, keys[id])
+		}
+	}
+	if len(ids) > 0 {
+		e = append(e, keys[ids[0]])
 	}
 	return starlark.NewList(e)
 }
